@@ -182,10 +182,10 @@ Definition mount_sources (ds : list device) (m : mount) : src_res :=
   match find_dev ds (m_dev m) with
   | None => SPanic
   | Some d =>
-    match m_source m with
+    let is_root := beq (m_root m) [slash] in
+    match (if is_root then m_source m else []) with
     | _ :: _ => SOk [m_source m]
     | [] =>
-      let is_root := beq (m_root m) [slash] in
       let root := if is_root then [] else m_root m in
       SOk ((if is_root then [d_name d] else []) ++
            filter (fun s => negb (beq s (m_mp m))) (map (fun mp => pathjoin2 mp root) (d_roots d)) ++
